@@ -207,8 +207,12 @@ pub fn parts(id: &'static str, tier: Tier) -> Option<(Vec<Part<Case>>, String)> 
             let mut long = c.clone();
             long.max_steps = 120;
             long.max_batch = 5;
+            let mut longer = c.clone();
+            longer.max_steps = 400;
+            longer.max_batch = 3;
+            longer.drain = true;
             Some((
-                vec![env_part("env-random-long-runs", long, tier.pick(5_000, 120_000)), exhaustive_env_part("exhaustive-batches-of-3", 3, tier.pick(4, 24), false), env_part("env-random-records", c, tier.pick(200_000, 3_000_000))],
+ vec![env_part("env-random-very-long-runs", longer, tier.pick(600, 12_000)), env_part("env-random-long-runs", long, tier.pick(5_000, 120_000)), exhaustive_env_part("exhaustive-batches-of-3", 3, tier.pick(4, 24), false), env_part("env-random-records", c, tier.pick(200_000, 3_000_000))],
                 format!("{}Oracle: after step k every recorded series (touch prices, side volumes, touch volumes and counts, per-level volumes and counts for each of the L levels, per-step traded volume) has exactly k entries, entry k-1 equals the value read from the live book after the step (bid series vs bid getters), earlier entries are unchanged, and traded volume k-1 equals both the volume logged during the step and the volume of trades time-stamped within it. Non-trivial: a step whose book differs between bid and ask in total volume, touch volume and touch count and has an occupied level >= 1 on both sides.", common),
             ))
         }
